@@ -1,12 +1,15 @@
 #!/bin/bash
-# tools/try_seed.sh <patch.diff> <id> [tier]  : apply a seeded change to /repo, run the check, undo.
+# tools/try_seed.sh <patch.diff> <id> [tier] : run check <id> against a scratch worktree of /repo's HEAD
+# with the seeded change applied.  /repo itself is never touched.  Prints rc and the verdict lines.
 set -u
-patch="$1"; id="$2"; tier="${3:-quick}"
-cd /repo || exit 2
-if [ -n "$(git status --porcelain)" ]; then echo "repo not clean"; exit 2; fi
-if ! git apply --3way "$patch" 2>/tmp/apply.err; then echo "PATCH DOES NOT APPLY: $(cat /tmp/apply.err | head -3)"; git reset -q --hard HEAD; exit 3; fi
-git reset -q
-cd /verif && ./check "$id" --tier "$tier" > /tmp/try_seed.$id.log 2>&1; rc=$?
-git -C /repo checkout -- . ; git -C /repo clean -fdq
-echo "rc=$rc"; grep -E '^(VIOLATION|KNOWN-FINDING|INCONCLUSIVE|EVIDENCE)' /tmp/try_seed.$id.log | cut -c1-300 | head -8
+patch="$(realpath "$1")"; id="$2"; tier="${3:-quick}"
+wt="$(mktemp -d /tmp/tryseed-XXXXXX)"; rmdir "$wt"
+git -C /repo worktree add -q --detach "$wt" HEAD || exit 2
+cleanup() { git -C /repo worktree remove --force "$wt" 2>/dev/null; rm -rf "$wt" "$evd"; }
+evd="$(mktemp -d /tmp/tryseed-ev-XXXXXX)"
+trap cleanup EXIT
+if ! git -C "$wt" apply --3way "$patch" 2>"$evd/apply.err"; then echo "PATCH DOES NOT APPLY: $(head -3 "$evd/apply.err")"; exit 3; fi
+cd /verif && VERIF_REPO="$wt" VERIF_EVIDENCE_DIR="$evd" ./check "$id" --tier "$tier" > "$evd/log" 2>&1; rc=$?
+echo "rc=$rc"; grep -E '^(VIOLATION|KNOWN-FINDING|INCONCLUSIVE|EVIDENCE)' "$evd/log" | cut -c1-260 | head -8
+cp "$evd/log" "/tmp/try_seed.$id.last.log" 2>/dev/null
 exit $rc
